@@ -982,9 +982,9 @@ def r8_reorder_end_to_end(rep, src, tier):
     n, bad = 0, None
     for dname, chunks0, ops in (('unique names', UNIQ, OPS_U), ('a repeated name', DUP, OPS_D)):
         pairs = [list(h_) for h_ in itertools.permutations(ops, 2)]
-        hists = [[o_] for o_ in ops] + (pairs if tier == 'thorough' else pairs[2::13])
+        hists = [[o_] for o_ in ops] + (pairs if tier == 'thorough' else pairs[2::31])
         for final_nl, tail in ((True, TAIL), (False, '')):
-            for hist in (hists if final_nl else hists[:6]):
+            for hist in (hists if final_nl else hists[:6] if tier == 'thorough' else hists[:3]):
                 chunks = [list(c_) for c_ in chunks0]
                 if not final_nl:
                     chunks[-1][1] = chunks[-1][1][:-1]          # the document ends without a line end
